@@ -238,7 +238,8 @@ real = _map(lambda v: v.re if isinstance(v, Cplx) else v, lambda v: v.real)
 imag = _map(lambda v: v.im if isinstance(v, Cplx) else 0.0, lambda v: v.imag)
 sin = _map(lambda v: core.uf('sin', v), real_math.sin)
 cos = _map(lambda v: core.uf('cos', v), real_math.cos)
-exp = _map(lambda v: core.uf('exp', v), real_math.exp)
+import cmath as _cmath
+exp = _map(lambda v: core.uf('exp', v), lambda v: _cmath.exp(v) if isinstance(v, complex) else real_math.exp(v))
 log10 = _map(lambda v: core.uf('log10', v), real_math.log10)
 log = _map(lambda v: core.uf('log', v), real_math.log)
 isnan = _map(lambda v: False, lambda v: v != v)
